@@ -93,6 +93,8 @@ type Engine struct {
 	assumeFailed map[string]int
 	deadlineAt   int64
 	ctxT         types.Type
+	rtypeT       types.Type
+	rtypes       map[string]types.Type // reflect.Type payloads (canonical string -> type)
 	bgCtx        int
 	logEventObj  [7]int
 	nativeCache  map[*FnInfo]*Native
